@@ -242,4 +242,74 @@ pub fn run(cfg: &Cfg, rep: &mut Report) {
     let chain = Chain::new(src, ops);
     check_case(cfg, rep, &format!("rand:{}", i), &chain, &inj);
   }
+
+  // (iv) static battery: the same chains written as ordinary typed (un-boxed) pipelines,
+  // so that the un-erased instantiations of the operators are exercised too
+  static_battery(cfg, rep);
+}
+
+fn typed_case(rep: &mut Report, id: &str, chain: &Chain, items: &[i64], got: Vec<N>) {
+  rep.evaluations += 1;
+  rep.count("static_battery_cases", 1);
+  let script: Vec<N> = items.iter().map(|i| N::Next(V::I(*i))).chain(std::iter::once(N::Complete)).collect();
+  let hot = vec![script.clone()];
+  let allowed = model::allowed_outputs(chain, &hot).unwrap_or_default();
+  rep.events += got.len() as u64;
+  if !allowed.contains(&got) {
+    rep.violation("sequence_mismatch", &format!("typed:{}", locus_of(chain)), id, json!({"typed_chain": chain.show(), "items": items, "observed": jn(&got), "expected_one_of": allowed.iter().map(|a| jn(a)).collect::<Vec<_>>()}));
+  } else {
+    rep.nontrivial.insert(hash64(&(chain, items, "typed")));
+  }
+}
+
+fn static_battery(cfg: &Cfg, rep: &mut Report) {
+  use rxrust::prelude::*;
+  use std::cell::RefCell;
+  use std::rc::Rc;
+  let inputs: Vec<Vec<i64>> = vec![vec![], vec![1], vec![0, 1, 2], vec![2, 2, 1, 0, 1], vec![1, 0, 1, 2, 2, 0]];
+  let mut k = 0usize;
+  for items in &inputs {
+    for n in 0..4usize {
+      k += 1;
+      if !cfg.mine(k) || !cfg.wants(&format!("typed:{}", k)) {
+        continue;
+      }
+      let id = format!("typed:{}", k);
+      macro_rules! run_typed {
+        ($chain:expr, $pipe:expr, $conv:expr) => {{
+          let out: Rc<RefCell<Vec<N>>> = Rc::new(RefCell::new(vec![]));
+          let (o1, o2) = (out.clone(), out.clone());
+          let conv = $conv;
+          $pipe.on_complete(move || o2.borrow_mut().push(N::Complete)).subscribe(move |v| o1.borrow_mut().push(N::Next(conv(v))));
+          let got = out.borrow().clone();
+          typed_case(rep, &id, &$chain, items, got);
+        }};
+      }
+      let src = || observable::from_iter(items.clone());
+      let iv = |v: i64| V::I(v);
+      run_typed!(Chain::new(Src::Hot(0), vec![Op::Map(MapF::Add(1)), Op::Filter(Pred::Even), Op::Take(n)]), src().map(|v| v + 1).filter(|v| v % 2 == 0).take(n), iv);
+      run_typed!(Chain::new(Src::Hot(0), vec![Op::Skip(n), Op::Distinct, Op::Count]), src().skip(n).distinct().count(), |c: usize| V::I(c as i64));
+      run_typed!(Chain::new(Src::Hot(0), vec![Op::TakeLast(n), Op::Pairwise]), src().take_last(n).pairwise(), |(a, b): (i64, i64)| V::p(V::I(a), V::I(b)));
+      run_typed!(Chain::new(Src::Hot(0), vec![Op::SkipLast(n), Op::DistinctUntilChanged, Op::Collect]), src().skip_last(n).distinct_until_changed().collect::<Vec<i64>>(), |l: Vec<i64>| V::L(l.into_iter().map(V::I).collect()));
+      run_typed!(Chain::new(Src::Hot(0), vec![Op::TakeWhile(Pred::Lt(2)), Op::StartWith(vec![V::I(8)]), Op::Last]), src().take_while(|v| *v < 2).start_with(vec![8]).last(), iv);
+      run_typed!(Chain::new(Src::Hot(0), vec![Op::ElementAt(n), Op::DefaultIfEmpty(V::I(9))]), src().element_at(n).default_if_empty(9), iv);
+      run_typed!(Chain::new(Src::Hot(0), vec![Op::SkipWhile(Pred::Lt(1)), Op::Contains(V::I(2))]), src().skip_while(|v| *v < 1).contains(2), V::B);
+      run_typed!(Chain::new(Src::Hot(0), vec![Op::BufferWithCount(n.max(1)), Op::Take(2)]), src().buffer_with_count(n.max(1)).take(2), |l: Vec<i64>| V::L(l.into_iter().map(V::I).collect()));
+      run_typed!(Chain::new(Src::Hot(0), vec![Op::All(Pred::Lt(2))]), src().all(|v| v < 2), V::B);
+      run_typed!(Chain::new(Src::Hot(0), vec![Op::FirstOr(V::I(7)), Op::MapTo(V::I(3))]), src().first_or(7).map_to(3), iv);
+      run_typed!(Chain::new(Src::Hot(0), vec![Op::Min]), src().min(), iv);
+      run_typed!(Chain::new(Src::Hot(0), vec![Op::Max]), src().max(), iv);
+      // float average: mean of the items (nothing for an empty source), within 1e-9
+      let outf: Rc<RefCell<Vec<f64>>> = Rc::new(RefCell::new(vec![]));
+      let of2 = outf.clone();
+      observable::from_iter(items.iter().map(|i| *i as f64).collect::<Vec<_>>()).average().subscribe(move |v| of2.borrow_mut().push(v));
+      rep.evaluations += 1;
+      rep.count("static_battery_cases", 1);
+      let want: Vec<f64> = if items.is_empty() { vec![] } else { vec![items.iter().sum::<i64>() as f64 / items.len() as f64] };
+      let got = outf.borrow().clone();
+      if got.len() != want.len() || got.iter().zip(want.iter()).any(|(a, b)| (a - b).abs() > 1e-9) {
+        rep.violation("sequence_mismatch", "typed:average", &id, json!({"items": items, "observed": got, "expected": want}));
+      }
+    }
+  }
 }
